@@ -31,6 +31,7 @@ REQUIRED = {
         'single-sample-interstorm-runs': 10,
         'datasets-with-interstorm-and-unexplained': 20,
         'contract-evaluations:spowtd.classify.get_mystery_jump_mask': 100,
+        'classifications-of-records-with-2000+-steps': 4,
     }
     for tier in ('quick', 'thorough')
 }
